@@ -551,6 +551,12 @@ func (w *jobWorld) envApply(action string) {
 			if cp := w.cachedPod(sim.ObjKey(p)); cp != nil && cp.Status.Phase == corev1.PodSucceeded {
 				recorded = true
 			}
+			// ... or still in flight to it: the watch stream is FIFO, the success is delivered before the removal
+			for _, ev := range w.Ctx.Set.Pods.PendingEvents() {
+				if ev.Key == sim.ObjKey(p) && ev.Type != sim.Deleted && ev.Obj.(*corev1.Pod).Status.Phase == corev1.PodSucceeded {
+					recorded = true
+				}
+			}
 			if !recorded {
 				w.mem.Ended[p.Name] = "lost"
 				delete(w.mem.Succeeded, podJobUID(p)+"/"+podHash(p))
@@ -1337,8 +1343,20 @@ func (w *jobWorld) checkState(quiescent bool) {
 									live = true
 								}
 							}
-							if end, ok := w.mem.LastEnd[id]; ok && !live {
-								armed("retry delay of index "+h, "C08", sim.Epoch.Add(time.Duration(end)*time.Second).Add(rd))
+							// The delay runs from the finish time the controller recorded for the previous attempt
+							// (for a vanished pod that is the time it noticed, which it cannot know better).
+							var recorded time.Time
+							for _, t := range rj.Status.Tasks {
+								idx := parallel.GetDefaultIndex()
+								if t.ParallelIndex != nil {
+									idx = *t.ParallelIndex
+								}
+								if th, _ := parallel.HashIndex(idx); th == h && t.FinishTimestamp != nil && t.FinishTimestamp.After(recorded) {
+									recorded = t.FinishTimestamp.Time
+								}
+							}
+							if !recorded.IsZero() && !live {
+								armed("retry delay of index "+h, "C08", recorded.Add(rd))
 							}
 						}
 					}
